@@ -758,10 +758,55 @@ def origin_has_call(o, regex):
 # facts
 
 class Facts:
+    # Types and free functions the rule tables name by their path.  When one of them was moved to another module (its path changed but not
+    # its name), the facts are read as if it still lived at the canonical path: the rules speak about the type, not about where it is declared.
+    ANCHOR_ADTS = ["util::sequential::SequentialWriter", "util::sequential::SequentialWriterBuilder", "util::sequential::SequentialReader",
+                   "util::sequential::SequentialReaderBuilder", "request::Request", "response::Response", "client::ClientConnection",
+                   "util::messages_queue::MessagesQueue", "util::task_pool::TaskPool", "util::equal_reader::EqualReader", "util::fused_reader::FusedReader",
+                   "util::refined_tcp_stream::RefinedTcpStream", "util::refined_tcp_stream::Stream", "response::TransferEncoding", "common::HTTPVersion",
+                   "common::Method", "common::Header", "common::HeaderField", "common::StatusCode", "connection::Listener", "connection::Connection",
+                   "connection::ListenAddr"]
+    ANCHOR_FNS = ["request::new_request"]
+
+    @staticmethod
+    def _canonicalise(text, d):
+        import re as _re
+        adts = {a["id"]: a for a in d["adts"]}
+        local_fn_ids = [b["id"] for b in d["bodies"] if b.get("local")]
+        moves = []
+        for canon in Facts.ANCHOR_ADTS:
+            if canon in adts:
+                continue
+            name = canon.rsplit("::", 1)[1]
+            cands = [k for k, a in adts.items() if k.rsplit("::", 1)[-1] == name and str(a.get("file", "")).startswith("src/")]
+            if len(cands) == 1:
+                moves.append((cands[0], canon))
+        for canon in Facts.ANCHOR_FNS:
+            if canon in local_fn_ids:
+                continue
+            name = canon.rsplit("::", 1)[1]
+            cands = [k for k in local_fn_ids if k.rsplit("::", 1)[-1] == name and "{closure" not in k and "<" not in k]
+            if len(cands) == 1:
+                moves.append((cands[0], canon))
+        if not moves:
+            return None, []
+        for old, canon in sorted(moves, key=lambda m: -len(m[0])):
+            text = _re.sub(_re.escape(old) + r"(?![A-Za-z0-9_])", canon, text)
+        return text, moves
+
     def __init__(self, path):
         self.path = path
         with open(path) as f:
-            self.d = json.load(f)
+            text = f.read()
+        self.d = json.loads(text)
+        self.moved = []
+        try:
+            t2, moves = Facts._canonicalise(text, self.d)
+            if t2 is not None:
+                self.d = json.loads(t2)
+                self.moved = moves
+        except Exception:
+            pass
         self.crate = self.d["crate"]
         self.fns = {}
         for b in self.d["bodies"]:
